@@ -86,13 +86,13 @@ fn code_bodies(payload: &[u8]) -> Vec<(usize, usize, usize)> {
     out
 }
 
-pub const NUM_MUTATORS: u64 = 19;
+pub const NUM_MUTATORS: u64 = 20;
 
 pub fn mutator_name(k: u64) -> &'static str {
     [
         "truncate-at-section", "truncate-random", "delete-section", "duplicate-section", "swap-sections", "section-size", "vector-count", "byte-flips",
         "code-byte", "insert-after-function-end", "type-byte", "unknown-section", "header", "splice-payload", "append-garbage", "insert-in-body",
-        "non-minimal-leb-in-body", "memarg-explicit-memory-index", "memarg-long-offset-leb",
+        "non-minimal-leb-in-body", "memarg-explicit-memory-index", "memarg-long-offset-leb", "extra-local-group",
     ][(k % NUM_MUTATORS) as usize]
 }
 
@@ -252,6 +252,49 @@ pub fn mutate(b: &[u8], k: u64, rng: &mut Rng) -> Vec<u8> {
                 let i = rng.usize(v.len());
                 let n = v[i].1.len();
                 v[i].1 = (0..n).map(|_| rng.next() as u8).collect();
+            }
+            rebuild(b, &v)
+        }
+        19 => {
+            // one more local declaration group in front of a body's locals: a count (0, 1, or a padded 0) and a type
+            // that is an ordinary one, one of a proposal walrus does not support, or no type at all
+            let mut v = split(b);
+            if let Some(ci) = v.iter().position(|s| s.0 == 10) {
+                let payload = v[ci].1.clone();
+                let bodies = code_bodies(&payload);
+                if !bodies.is_empty() {
+                    let (lp, bs, be) = *rng.pick(&bodies);
+                    let body = payload[bs..be].to_vec();
+                    if let Some((ngroups, p)) = read_leb(&body, 0) {
+                        let count: &[u8] = match rng.below(4) {
+                            0 | 1 => &[0x00],
+                            2 => &[0x80, 0x00],
+                            _ => &[0x01],
+                        };
+                        let ty: &[u8] = match rng.below(10) {
+                            0 => &[0x7f],
+                            1 => &[0x69],       // exnref
+                            2 => &[0x6e],       // anyref
+                            3 => &[0x6d],       // eqref
+                            4 => &[0x6c],       // i31ref
+                            5 => &[0x63, 0x07], // (ref null 7)
+                            6 => &[0x64, 0x70], // (ref func)
+                            7 => &[0x7b],       // v128
+                            8 => &[0x6f],       // externref
+                            _ => &[0x40],
+                        };
+                        let mut nb = Vec::new();
+                        leb_u32(&mut nb, ngroups as u32 + 1);
+                        nb.extend_from_slice(count);
+                        nb.extend_from_slice(ty);
+                        nb.extend_from_slice(&body[p..]);
+                        let mut np = payload[..lp].to_vec();
+                        leb_u32(&mut np, nb.len() as u32);
+                        np.extend_from_slice(&nb);
+                        np.extend_from_slice(&payload[be..]);
+                        v[ci].1 = np;
+                    }
+                }
             }
             rebuild(b, &v)
         }
